@@ -65,6 +65,9 @@ def eval_with_excluded(paths):
     def one(p):
         t0 = time.time()
         rc, out = vlib.coqc_file(p, timeout=900)
+        if rc != 0 and "Error" not in out:
+            # no Coq error message: the process was killed (time-out / memory pressure on a loaded machine); evaluate once more
+            rc, out = vlib.coqc_file(p, timeout=1500)
         r = {"path": p, "secs": round(time.time() - t0, 2), "ok": False, "mism": None, "error": None, "excl": 0}
         m = re.search(r"M\s*=\s*(\[[^\]]*\])", out, flags=re.S)
         e = re.search(r"E\s*=\s*(\d+)", out)
